@@ -983,7 +983,7 @@ class CFG:
                                 was_modified = True
                                 gen_d[production.head][-1].append(new_word)
                                 if production.head == cfg.start_symbol:
-                                    yield new_word
+                                    yield list(new_word)
             if was_modified:
                 total_no_modification = 0
             else:
